@@ -169,11 +169,53 @@ def isa_baseline(ctx):
     ctx.sample("ISA baseline: %d assemblies of the x86-64 / i386 files with the assembler restricted to generic64 / i386" % n)
 
 
+# which assembly back ends may be selected for which compilation target: the architecture must be the file's, and the x86-64 files follow the System V calling convention
+# (arguments in rdi/rsi, rsi/rdi caller-saved), so no target with the Microsoft x64 convention may select them.  A plain-C back end is acceptable everywhere.
+SELECTION_TARGETS = [
+    ("x86_64-linux-gnu", {"X86_64"}), ("x86_64-unknown-freebsd", {"X86_64"}), ("x86_64-apple-darwin", {"X86_64"}), ("x86_64-unknown-netbsd", {"X86_64"}),
+    ("x86_64-pc-windows-msvc", set()), ("x86_64-w64-mingw32", set()), ("x86_64-pc-windows-cygnus", set()),
+    ("i686-linux-gnu", {"I386"}), ("i686-pc-windows-msvc", {"I386"}), ("i386-unknown-freebsd", {"I386"}),
+    ("aarch64-linux-gnu", {"ARMV8A"}), ("aarch64-pc-windows-msvc", {"ARMV8A"}), ("arm64-apple-darwin", {"ARMV8A"}),
+    ("armv7m-none-eabi", {"ARMV7M"}), ("thumbv7em-none-eabi", {"ARMV7M"}), ("armv7a-none-eabi", {"ARMV7M", "ARMV6"}), ("armv6m-none-eabi", {"ARMV6M"}), ("thumbv6m-none-eabi", {"ARMV6M"}),
+    ("armv6-none-eabi", {"ARMV6"}), ("armv5te-none-eabi", set()), ("thumbv8m.base-none-eabi", {"ARMV6M"}), ("thumbv8m.main-none-eabi", {"ARMV7M", "ARMV6M"}),
+    ("riscv32-unknown-elf", {"RISCV32I", "RISCV32E"}), ("riscv64-unknown-elf", {"RISCV64I"}), ("riscv64-linux-gnu", {"RISCV64I"}),
+    ("m68k-linux-gnu", {"M68K"}), ("mips-linux-gnu", set()), ("mips64-linux-gnu", set()), ("powerpc64le-linux-gnu", set()), ("powerpc-linux-gnu", set()), ("sparcv9-linux-gnu", set()),
+    ("wasm32", set()), ("wasm64", set()), ("s390x-linux-gnu", set()), ("hexagon", set()), ("msp430", set()), ("bpf", set()),
+]
+ASM_BACKENDS = {"ARMV6", "ARMV6M", "ARMV7M", "ARMV8A", "AVR5", "I386", "M68K", "RISCV32E", "RISCV32I", "RISCV64I", "X86_64", "XTENSA"}
+
+
+def selection_census(ctx):
+    """program enumeration over compilation targets: ascon-select-backend.h preprocessed with clang's predefined macros of each target; the assembly back end it selects (if any)
+    must be one written for that architecture and calling convention"""
+    hdr = os.path.join(build.REPO, "src", "core", "ascon-select-backend.h")
+    done = []
+    for target, allowed in SELECTION_TARGETS:
+        for extra in ([], ["-DASCON_FORCE_C32"], ["-DASCON_FORCE_C64"]) if not allowed else ([],):
+            p = subprocess.run(["clang", "--target=" + target, "-E", "-dM", "-I" + os.path.join(build.REPO, "src", "core"), "-include", hdr, "-x", "c", "/dev/null"] + extra,
+                               stdout=subprocess.PIPE, stderr=subprocess.PIPE)
+            if p.returncode != 0:
+                break     # this clang cannot target it
+            sel = set(re.findall(r"#define ASCON_BACKEND_([A-Z0-9_]+) 1", p.stdout.decode()))
+            asm = sel & ASM_BACKENDS
+            ctx.stat("evaluations")
+            if len(asm) > 1:
+                ctx.fail("backend-selection:%s" % target, "more than one assembly back end selected: %s" % sorted(asm))
+            bad = asm - allowed
+            if bad:
+                ctx.fail("backend-selection:%s" % target, "selects the assembly back end %s, which is not written for this target's architecture / calling convention (acceptable here: %s or plain C)" % (sorted(bad), sorted(allowed) or "none"))
+            if not extra:
+                done.append("%s->%s" % (target, ",".join(sorted(asm)) or "C"))
+    ctx.stats["selection_targets"] = len(done)
+    ctx.sample("back-end selection over %d clang targets: %s" % (len(done), " ".join(done)))
+
+
 def run(ctx):
     t = ctx.thorough
     generators(ctx)
     elf(ctx)
     isa_baseline(ctx)
+    selection_census(ctx)
     entry_point_census(ctx)
     jobs = []
     for tr in (build.ALL_TRIPLES if t else [build.DEFAULT_TRIPLE, (2, 1, 2), (3, 3, 3)]):
